@@ -532,6 +532,12 @@ fn templates() -> Vec<(&'static str, Vec<Piece>)> {
     ("filter-then-name", vec![T("[[{"), S(0), T(": 1}, {"), S(0), T(": 2}][1]."), S(0), T(", "), N(0), T(" - 1]")]),
     // the keys of every item of a list of contexts in the scope are names (not only those of the first item)
     ("list-item-key", vec![Z, T("["), L(0), T(" - 1 > 0].fld")]),
+    // parameters declared in one order, arguments named in the other: each name resolves to its own argument
+    ("function-named-args", vec![T("(function("), L(1), T(", "), L(0), T(") ["), L(1), T(", "), L(0), T("])("), L(0), T(": 1, "), L(1), T(": 2)")]),
+    ("function-named-args", vec![T("(function("), L(0), T(", "), L(1), T(") ["), L(1), T(", "), L(0), T("])("), L(1), T(": 2, "), L(0), T(": 1)")]),
+    // a bound list of contexts as the head of a path: the path, not an (unbound) name `zlist.fld`
+    ("list-path-head", vec![Z, T(".fld")]),
+    ("list-path-head", vec![T("sum("), Z, T(" . fld) + count("), Z, T(".fld)")]),
     ("list-item-key", vec![T("(for e in "), Z, T(" return e.fld)[2] + "), Z, T("["), L(0), T(" * 2 > 0].fld")]),
     ("comment", vec![N(0), T(" /* c */ + "), N(1)]),
     ("comment", vec![N(0), T(" /* c */ /* d */ // e\n /* f */ + "), N(1)]),
@@ -962,7 +968,19 @@ pub fn run(cfg: &Cfg) -> Report {
       // value 3 satisfies both filters): the expectation does not go through the implementation's own
       // treatment of list items
       let _ = eval_text(&s, &expected_text);
-      if c.text.starts_with("zlist[") { "2".to_string() } else { "4".to_string() }
+      if c.text == "zlist.fld" {
+        "[1, 2]".to_string()
+      } else if c.text.starts_with("sum(zlist") {
+        "5".to_string()
+      } else if c.text.starts_with("zlist[") {
+        "2".to_string()
+      } else {
+        "4".to_string()
+      }
+    } else if c.family == "function-named-args" {
+      // known outright: the list of the second and the first parameter's arguments
+      let _ = eval_text(&empty, &expected_text);
+      "[2, 1]".to_string()
     } else {
       eval_text(&empty, &expected_text)
     };
